@@ -82,6 +82,10 @@ List(items)  == [t |-> "List", items |-> items]
 SetV(elems)  == [t |-> "Set", elems |-> elems]
 Arr(dt, sh, data) == [t |-> "Array", dtype |-> dt, shape |-> sh, data |-> data]
 IsNum(v)     == v.t \in IntTypes \cup FloatTypes
+\* Float values beyond the rationals: d = 0 is an INFINITY (n = 1: +inf, n = -1: -inf), n = 0 with d = -1 is -0.0.
+\* NaN is excluded from the property (NaN != NaN: an object holding a NaN is not even equal to itself).
+IsInf(a)    == a.d = 0
+NegZero(a)  == a.n = 0 /\ a.d < 0
 Kind(v)      == IF v.t \in IntTypes THEN "int" ELSE IF v.t \in FloatTypes THEN "float" ELSE v.t
 IntDtypes    == {"int8", "int16", "int32", "int64", "uint8", "uint16", "uint32", "uint64"}
 DtKind(dt)   == IF dt \in IntDtypes THEN "int" ELSE "float"
@@ -133,7 +137,9 @@ EncScalar(v, D) ==
     [] v.t = "NpFloat16" ->
          IF D.NarrowScalarRaises THEN JRaise("TypeError") ELSE JNum("float", v.n, v.d)
     [] v.t = "NpFloat32" ->
-         IF D.Float32EncodedAsInt THEN JNum("int", Trunc(v.n, v.d), 1) ELSE JNum("float", v.n, v.d)
+         IF D.Float32EncodedAsInt
+         THEN (IF IsInf(v) THEN JRaise("OverflowError") ELSE JNum("int", IF v.n = 0 THEN 0 ELSE Trunc(v.n, v.d), 1))
+         ELSE JNum("float", v.n, v.d)
 
 RECURSIVE Enc(_, _)
 Enc(v, D) ==
@@ -178,7 +184,7 @@ Dec(t, D) ==
     [] OTHER -> DecScalar(t)
 
 (* ------------------------------------ equalities ---------------------------------------------- *)
-NumEq(a, b) == a.n * b.d = b.n * a.d
+NumEq(a, b) == IF IsInf(a) \/ IsInf(b) THEN a.d = b.d /\ a.n = b.n ELSE a.n * b.d = b.n * a.d
 RECURSIVE LibEq(_, _)
 LibEq(a, b) ==
   IF IsNum(a) /\ IsNum(b) THEN NumEq(a, b)
@@ -193,7 +199,7 @@ LibEq(a, b) ==
          [] OTHER -> FALSE
 RECURSIVE Faithful(_, _)
 Faithful(a, b) ==
-  IF IsNum(a) /\ IsNum(b) THEN NumEq(a, b) /\ Kind(a) = Kind(b)
+  IF IsNum(a) /\ IsNum(b) THEN NumEq(a, b) /\ Kind(a) = Kind(b) /\ NegZero(a) = NegZero(b)
   ELSE IF a.t # b.t THEN FALSE
   ELSE CASE a.t = "Str"   -> a.s = b.s
          [] a.t = "None"  -> TRUE
@@ -248,7 +254,7 @@ EqDefinedV(v) == IF v.t = "List" THEN ~HasNonUnitArray(v) ELSE TRUE
 EqDefinedP(P) == \A i \in 1..Len(P.params) : P.params[i].name = "rep_max" \/ EqDefinedV(P.params[i].val)
 
 \* iteration of a parameter value (what unpacking produces)
-StrChars == ("ab" :> <<"a", "b">>) @@ ("qpsk" :> <<"q", "p", "s", "k">>) @@ ("x" :> <<"x">>) @@ ("" :> <<>>)
+StrChars == ("c{num}" :> <<"c", "{", "n", "u", "m", "}">>) @@ ("ab" :> <<"a", "b">>) @@ ("qpsk" :> <<"q", "p", "s", "k">>) @@ ("x" :> <<"x">>) @@ ("" :> <<>>)
 Iter(v) ==
   CASE v.t = "List" -> v.items
     [] v.t = "Str"  -> [i \in 1..Len(StrChars[v.s]) |-> Str(StrChars[v.s][i])]
@@ -279,9 +285,13 @@ NpJoin(a, b) == IF a = b THEN a
 JoinT(a, b) == IF IsPy(a) /\ IsPy(b) THEN (IF a = "PyInt" /\ b = "PyInt" THEN "PyInt" ELSE "PyFloat")
                ELSE IF IsPy(a) THEN WeakJoin(a, b) ELSE IF IsPy(b) THEN WeakJoin(b, a) ELSE NpJoin(a, b)
 DivT(a, b)  == LET jt == JoinT(a, b) IN IF jt = "PyInt" THEN "PyFloat" ELSE IF jt \in IntTypes THEN "NpFloat64" ELSE jt
-NAdd(a, b)  == LET q == RAdd(<<a.n, a.d>>, <<b.n, b.d>>) IN Num(JoinT(a.t, b.t), q[1], q[2])
-NDiv(a, b)  == LET q == RDiv(<<a.n, a.d>>, <<b.n, b.d>>) IN Num(DivT(a.t, b.t), q[1], q[2])
-NSq(a)      == LET q == RMul(<<a.n, a.d>>, <<a.n, a.d>>) IN Num(a.t, q[1], q[2])
+\* inf + x = inf, inf^2 = +inf, inf / positive = inf (histories never mix +inf with -inf: that would be NaN)
+NAdd(a, b)  == IF IsInf(a) THEN Num(JoinT(a.t, b.t), a.n, 0) ELSE IF IsInf(b) THEN Num(JoinT(a.t, b.t), b.n, 0)
+               ELSE LET q == RAdd(<<a.n, a.d>>, <<b.n, b.d>>) IN Num(JoinT(a.t, b.t), q[1], q[2])
+NDiv(a, b)  == IF IsInf(a) THEN Num(DivT(a.t, b.t), a.n, 0)
+               ELSE LET q == RDiv(<<a.n, a.d>>, <<b.n, b.d>>) IN Num(DivT(a.t, b.t), q[1], q[2])
+NSq(a)      == IF IsInf(a) THEN Num(a.t, 1, 0)
+               ELSE LET q == RMul(<<a.n, a.d>>, <<a.n, a.d>>) IN Num(a.t, q[1], q[2])
 
 SUMT == 0  RATIOT == 1  MISCT == 2  CHOICET == 3
 \* Rd = [name, type, acc, nch, hist]; hist[i] = [v, tot]
@@ -373,8 +383,9 @@ SFaithful(A, B) == /\ PFaithful(A.params, B.params) /\ Faithful(A.runned, B.runn
 
 (* ------------------------------------ file names ----------------------------------------------- *)
 \* template = sequence of tokens [lit |-> text] | [par |-> name]; an extension-less template gets ".pickle"
-Lit(s) == [k |-> "lit", s |-> s]
-Par(s) == [k |-> "par", s |-> s]
+Lit(s) == [k |-> "lit", s |-> s, raw |-> s]
+LitE(s, raw) == [k |-> "lit", s |-> s, raw |-> raw]       \* literal text s written as raw in the template ("{{" for "{")
+Par(s) == [k |-> "par", s |-> s, raw |-> s]
 Pad2(x) == IF x < 10 THEN "0" \o ToString(x) ELSE ToString(x)
 Pad3(x) == IF x < 10 THEN "00" \o ToString(x) ELSE IF x < 100 THEN "0" \o ToString(x) ELSE ToString(x)
 FracDigits(m) == IF m = 0 THEN "0" ELSE IF m % 100 = 0 THEN ToString(m \div 100)
@@ -382,7 +393,9 @@ FracDigits(m) == IF m = 0 THEN "0" ELSE IF m % 100 = 0 THEN ToString(m \div 100)
 \* str() of a float whose denominator divides 1000 (all pools satisfy this)
 RenderFloat(n, d) == LET a == Abs(n) IN (IF n < 0 THEN "-" ELSE "") \o ToString(a \div d) \o "."
                                         \o FracDigits(((a % d) * 1000) \div d)
-RenderNum(kind, n, d) == IF kind = "int" THEN ToString(n) ELSE RenderFloat(n, d)
+RenderNum(kind, n, d) == IF kind = "int" THEN ToString(n)
+                         ELSE IF d = 0 THEN (IF n < 0 THEN "-inf" ELSE "inf")
+                         ELSE IF n = 0 /\ d < 0 THEN "-0.0" ELSE RenderFloat(n, d)
 RECURSIVE JoinComma(_)
 JoinComma(ss) == IF Len(ss) = 0 THEN "" ELSE IF Len(ss) = 1 THEN ss[1] ELSE ss[1] \o "," \o JoinComma(Tail(ss))
 IsAP(data) == \A i \in 2..Len(data) - 1 : RSub(data[i + 1], data[i]) = RSub(data[2], data[1])
@@ -395,16 +408,16 @@ RenderArray(v) ==
   IN  "[" \o (IF Len(v.data) < 4 THEN JoinComma([i \in 1..Len(v.data) |-> el(i)])
               ELSE el(1) \o "_(" \o RenderNum(kd, st[1], st[2]) \o ")_" \o el(Len(v.data))) \o "]"
 Renderable(v) == IF v.t = "Str" THEN TRUE ELSE IF IsNum(v) THEN TRUE
-                 ELSE IF v.t = "Array" /\ Len(v.shape) = 1 /\ Len(v.data) >= 1
+                 ELSE IF v.t = "Array" /\ Len(v.shape) = 1 /\ Len(v.data) >= 1 /\ \A i \in 1..Len(v.data) : v.data[i][2] > 0
                       THEN (IF Len(v.data) < 4 THEN TRUE ELSE IsAP(v.data))
                       ELSE FALSE
 Render(v) == IF v.t = "Str" THEN v.s
              ELSE IF v.t = "Array" THEN RenderArray(v)
-             ELSE IF Hyp.FileNameRounds THEN RenderNum("int", Trunc(v.n, v.d), 1)
+             ELSE IF Hyp.FileNameRounds /\ v.d > 0 THEN RenderNum("int", Trunc(v.n, v.d), 1)
              ELSE RenderNum(Kind(v), v.n, v.d)
 RECURSIVE TemplateText(_)
 TemplateText(tk) == IF tk = <<>> THEN ""
-                    ELSE (IF Head(tk).k = "lit" THEN Head(tk).s ELSE "{" \o Head(tk).s \o "}") \o TemplateText(Tail(tk))
+                    ELSE (IF Head(tk).k = "lit" THEN Head(tk).raw ELSE "{" \o Head(tk).s \o "}") \o TemplateText(Tail(tk))
 RECURSIVE FileName(_, _)
 FileName(tk, P) == IF tk = <<>> THEN ""
                    ELSE (IF Head(tk).k = "lit" THEN Head(tk).s ELSE Render(Val(P, Head(tk).s))) \o FileName(Tail(tk), P)
@@ -425,17 +438,23 @@ ScalarPool ==
     Num("NpFloat32", 0, 1), Num("NpFloat32", 3, 2), Num("NpFloat32", -1, 4), Num("NpFloat32", 2, 1), Num("NpFloat32", -7, 2),
     Num("NpFloat32", 15, 8),
     Num("NpFloat64", 0, 1), Num("NpFloat64", 3, 2), Num("NpFloat64", -1, 4), Num("NpFloat64", 2, 1), Num("NpFloat64", 1, 10),
-    Str(""), Str("ab"), Str("qpsk")>>
+    Str(""), Str("ab"), Str("qpsk"),
+    \* infinities and the negative zero in every float width
+    Num("PyFloat", 1, 0), Num("PyFloat", -1, 0), Num("NpFloat64", -1, 0), Num("NpFloat32", 1, 0), Num("NpFloat16", -1, 0),
+    Num("PyFloat", 0, -1), Num("NpFloat32", 0, -1),
+    \* strings that look like format fields: the value of a parameter is DATA, never a template
+    Str("c{num}"), Str("set{{A}}"), Str("{0}"), Str("a b%s"), Str("}{")>>
 
 \* list elements (mixed types; 1.5 appears as Python, float32 and float64 value)
 E1q == <<Num("PyInt", 1, 1), Num("PyFloat", 3, 2), Num("NpInt32", -3, 1), Num("NpInt64", 7, 1),
-         Num("NpFloat32", 3, 2), Num("NpFloat64", -1, 4), Str("x"), Num("PyFloat", 2, 1)>>
+         Num("NpFloat32", 3, 2), Num("NpFloat64", -1, 4), Str("x"), Num("PyFloat", 2, 1), Num("NpFloat32", -1, 0),
+         Str("{x}")>>
 E1t == E1q \o <<Num("NpInt8", 7, 1), Num("NpUInt16", 7, 1), Num("NpFloat16", 3, 2), Num("NpFloat32", 2, 1),
                 Num("PyFloat", 1, 10), Str("")>>
 E1  == IF Thorough THEN E1t ELSE E1q
 \* set elements: pairwise different numeric values (a Python set identifies 1 and 1.0)
 S1q == <<Num("PyInt", 1, 1), Num("PyFloat", 3, 2), Num("NpInt64", 7, 1), Num("NpFloat32", -1, 4), Str("a"),
-         Num("NpFloat64", 2, 1), Num("NpInt16", -3, 1), Str("b")>>
+         Num("NpFloat64", 2, 1), Num("NpInt16", -3, 1), Str("b"), Num("PyFloat", 1, 0)>>
 S1t == S1q \o <<Num("NpFloat16", 5, 2), Num("NpUInt8", 200, 1), Num("NpFloat32", 7, 2), Num("PyFloat", 1, 10)>>
 S1  == IF Thorough THEN S1t ELSE S1q
 
@@ -459,6 +478,8 @@ Sets(pool, maxsize) ==
 DataInt(len)      == [i \in 1..len |-> <<(i * 5) % 7, 1>>]            \* 5 3 1 6 4 2 0 ...   (fits every integer dtype)
 DataIntNeg(len)   == [i \in 1..len |-> <<((i * 5) % 7) - 3, 1>>]      \* signed dtypes only
 DataFloat(len)    == [i \in 1..len |-> RNorm(2 * ((i * 5) % 7) - 5, 4)] \* 5/4 1/4 -3/4 7/4 ...
+DataFloatInf(len) == [i \in 1..len |-> IF i % 4 = 1 THEN <<1, 0>> ELSE IF i % 4 = 2 THEN <<0, -1>>       \* inf -0.0 -inf 3/4
+                                         ELSE IF i % 4 = 3 THEN <<-1, 0>> ELSE <<3, 4>>]
 DataFloatInt(len) == [i \in 1..len |-> <<i - 2, 1>>]                  \* -1.0 0.0 1.0 : integral floats must stay floats
 ShapesQ == <<<<0>>, <<1>>, <<3>>, <<1, 1>>, <<2, 2>>, <<2, 3>>, <<0, 2>>, <<2, 0>>>>
 ShapesT == ShapesQ \o <<<<5>>, <<3, 1>>, <<2, 1, 2>>, <<0, 0>>, <<1, 0, 2>>>>
@@ -472,7 +493,8 @@ ArraysOf(dt) ==
         LET sh == Shapes[s]  len == Prod(sh)
         IN  IF DtKind(dt) = "int"
             THEN <<Arr(dt, sh, DataInt(len))>> \o (IF signed /\ len > 0 THEN <<Arr(dt, sh, DataIntNeg(len))>> ELSE <<>>)
-            ELSE <<Arr(dt, sh, DataFloat(len))>> \o (IF len > 0 THEN <<Arr(dt, sh, DataFloatInt(len))>> ELSE <<>>)])
+            ELSE <<Arr(dt, sh, DataFloat(len))>>
+                 \o (IF len > 0 THEN <<Arr(dt, sh, DataFloatInt(len)), Arr(dt, sh, DataFloatInf(len))>> ELSE <<>>)])
 Arrays == Concat([k \in 1..Len(Dtypes) |-> ArraysOf(Dtypes[k])])
 
 \* nesting 2: lists whose elements are themselves containers
@@ -511,7 +533,13 @@ PBase ==
      <<PV("arr", Arr("int32", <<2, 2>>, DataIntNeg(4))), PV("lst", List(<<>>)), PV("num", Num("PyFloat", 1, 10)),
        PV("set", SetV({}))>>,
      <<PV("num", Num("NpInt64", 7, 1)), PV("arr", APf), PV("str", Str("x")),
-       PV("lst", List(<<Num("NpFloat32", -1, 4), SetV({Num("PyInt", 1, 1)}), Arr("int8", <<2>>, DataIntNeg(2))>>))>> >>
+       PV("lst", List(<<Num("NpFloat32", -1, 4), SetV({Num("PyInt", 1, 1)}), Arr("int8", <<2>>, DataIntNeg(2))>>))>>,
+     \* infinities everywhere (scalar, list element, array element -> unpacked children)
+     <<PV("num", Num("NpFloat64", 1, 0)), PV("arr", Arr("float64", <<3>>, DataFloatInf(3))),
+       PV("lst", List(<<Num("PyFloat", -1, 0), Num("PyInt", 0, 1), Num("NpFloat32", 1, 0)>>)), PV("str", Str("ab"))>>,
+     \* strings that look like format fields, one naming another parameter
+     <<PV("str", Str("c{num}")), PV("num", Num("PyInt", 0, 1)), PV("lst", List(<<Str("{0}"), Str("set{{A}}")>>)),
+       PV("arr", Arr("int64", <<2>>, DataInt(2)))>> >>
 PExtra ==
   << <<PV("arr", Arr("float16", <<2, 1, 2>>, DataFloat(4))), PV("lst", List(<<List(<<>>), List(<<Num("NpUInt8", 200, 1)>>)>>)),
        PV("num", Num("NpFloat16", -1, 4)), PV("str", Str(""))>>,
@@ -525,13 +553,15 @@ IterNames(ps) == {ps[i].name : i \in {k \in 1..Len(ps) : ps[k].val.t \in {"List"
 U(v)     == [v |-> v, tot |-> Num("PyInt", 0, 1)]
 UR(v, t) == [v |-> v, tot |-> t]
 SumAlpha == <<U(Num("PyInt", 3, 1)), U(Num("PyFloat", 1, 2)), U(Num("NpInt32", -2, 1)), U(Num("NpFloat32", 3, 2)),
-              U(Num("NpFloat64", 1, 4)), U(Num("NpInt64", 5, 1)), U(Num("PyFloat", 0, 1)), U(Num("PyInt", 0, 1))>>
+              U(Num("NpFloat64", 1, 4)), U(Num("NpInt64", 5, 1)), U(Num("PyFloat", 0, 1)), U(Num("PyInt", 0, 1)),
+              U(Num("PyFloat", 1, 0)), U(Num("NpFloat32", 1, 0))>>
 RatioAlpha == <<UR(Num("PyInt", 1, 1), Num("PyInt", 4, 1)), UR(Num("PyInt", 1, 1), Num("PyInt", 3, 1)),
                 UR(Num("NpInt64", 3, 1), Num("NpInt64", 8, 1)), UR(Num("NpFloat32", 3, 2), Num("PyInt", 2, 1)),
-                UR(Num("PyInt", 0, 1), Num("NpInt32", 5, 1)), UR(Num("PyFloat", 1, 2), Num("PyFloat", 5, 2))>>
+                UR(Num("PyInt", 0, 1), Num("NpInt32", 5, 1)), UR(Num("PyFloat", 1, 2), Num("PyFloat", 5, 2)),
+                UR(Num("PyFloat", 1, 0), Num("PyInt", 4, 1))>>
 MiscAlpha == <<U(Num("PyInt", 3, 1)), U(Str("some string")), U(SetV({Num("PyInt", 1, 1), Num("PyFloat", 5, 2)})),
                U(List(<<Num("NpFloat32", 3, 2), Str("x")>>)), U(Num("NpFloat32", 3, 2)), U(Num("PyFloat", 2, 1)),
-               U(Str("")), U(NoneV), U(List(<<>>)), U(Num("PyInt", 0, 1))>>
+               U(Str("")), U(NoneV), U(List(<<>>)), U(Num("PyInt", 0, 1)), U(Num("NpFloat64", -1, 0)), U(Str("v{num}"))>>
 ChoiceAlpha == <<U(Num("PyInt", 2, 1)), U(Num("PyInt", 0, 1)), U(Num("NpInt64", 1, 1)), U(Num("NpInt32", 2, 1))>>
 NarrowAlpha == <<U(Num("NpInt8", 7, 1)), U(Num("NpUInt16", 7, 1)), U(Num("NpFloat16", 3, 2))>>
 AlphaOf(ty) == CASE ty = SUMT -> SumAlpha [] ty = RATIOT -> RatioAlpha [] ty = MISCT -> MiscAlpha [] ty = CHOICET -> ChoiceAlpha
@@ -544,7 +574,7 @@ Hists(alpha) ==
 \* Well-conditioned histories (excluded IN THE SPEC): an accumulator that becomes float32/float16 only ever
 \* sees dyadic values, so that every statistic is exactly representable in that width.
 IsPow2(d) == d \in {1, 2, 4, 8, 16, 32, 64, 128, 256, 512, 1024, 2048, 4096}
-LetterDyadic(ty, u) == IF ty = RATIOT THEN IsPow2(RDiv(<<u.v.n, u.v.d>>, <<u.tot.n, u.tot.d>>)[2])
+LetterDyadic(ty, u) == IF IsNum(u.v) /\ IsInf(u.v) THEN TRUE ELSE IF ty = RATIOT THEN IsPow2(RDiv(<<u.v.n, u.v.d>>, <<u.tot.n, u.tot.d>>)[2])
                        ELSE IF IsNum(u.v) THEN IsPow2(u.v.d) ELSE TRUE
 Narrow(v) == v.t \in {"NpFloat32", "NpFloat16"}
 HistOk(ty, h) == IF ty = MISCT THEN TRUE
@@ -564,7 +594,10 @@ FalsyResSet ==
      [name |-> "m", rs |-> <<MkR("m", MISCT, TRUE, <<U(Str("")), U(List(<<>>)), U(Num("PyInt", 0, 1))>>)>>],
      [name |-> "mset", rs |-> <<MkR("mset", MISCT, FALSE, <<U(SetV({}))>>)>>],
      [name |-> "none", rs |-> <<MkR("none", MISCT, FALSE, <<U(NoneV)>>)>>],
-     [name |-> "c", rs |-> <<MkR("c", CHOICET, TRUE, <<U(Num("PyInt", 0, 1))>>), MkR("c", CHOICET, FALSE, <<>>)>>] >>
+     [name |-> "c", rs |-> <<MkR("c", CHOICET, TRUE, <<U(Num("PyInt", 0, 1))>>), MkR("c", CHOICET, FALSE, <<>>)>>],
+     [name |-> "inf", rs |-> <<MkR("inf", SUMT, TRUE, <<U(Num("PyFloat", 1, 0)), U(Num("PyInt", 3, 1))>>)>>],
+     [name |-> "b{num}%", rs |-> <<MkR("b{num}%", MISCT, FALSE, <<U(Str("{0}"))>>)>>],
+     [name |-> "C", rs |-> <<MkR("C", SUMT, FALSE, <<U(Num("PyInt", 1, 1))>>)>>] >>
 ResSets ==
   << << [name |-> "ber", rs |-> <<MkR("ber", RATIOT, FALSE, <<RatioAlpha[1]>>), MkR("ber", RATIOT, FALSE, <<RatioAlpha[3], RatioAlpha[1]>>)>>],
         [name |-> "sum", rs |-> <<MkR("sum", SUMT, TRUE, <<SumAlpha[1], SumAlpha[2]>>)>>] >>,
@@ -584,13 +617,15 @@ CurrentPool == <<-1, 0, 1, 500>>
 OrigPool    == <<NoneV, Str(""), Str("x_{num}.json")>>      \* original_filename of an object that was never saved / set by hand
 Templates == << <<Lit("res_"), Par("num"), Lit("_"), Par("str")>>,
                 <<Lit("r("), Par("arr"), Lit(")_"), Par("num"), Lit("_x")>>,
-                <<Lit("plain")>> >>
+                <<Lit("plain")>>,
+                <<LitE("e{x}_", "e{{x}}_"), Par("str"), LitE("}", "}}")>> >>
 Exts == <<".json", ".pickle", "">>
 \* parameter objects stored in results: plain, with marks, and an unpacked child
 SParams == <<MkP(PBase[1], {}, -1, <<>>), MkP(PBase[1], {"arr", "lst"}, -1, <<>>),
              Child(MkP(PBase[1], {"arr", "lst"}, -1, <<>>), 3),
              MkP(PBase[2], {"arr"}, -1, <<>>), Child(MkP(PBase[2], {"arr", "str"}, -1, <<>>), 6),
-             MkP(PBase[4], {}, -1, <<>>), Child(MkP(PBase[4], {"arr"}, -1, <<>>), 1)>>
+             MkP(PBase[4], {}, -1, <<>>), Child(MkP(PBase[4], {"arr"}, -1, <<>>), 1),
+             Child(MkP(PBase[5], {"arr"}, -1, <<>>), 2), MkP(PBase[6], {"str"}, -1, <<>>)>>
 
 \* ---- file names ----
 FnPool == SelectSeq(ScalarPool, LAMBDA v : v.s # "" \/ IsNum(v))      \* the empty string is excluded
@@ -608,12 +643,24 @@ RelS(S)   == {f \in DevNames : LET t == EncS(S, Only(f)) IN
                  \/ t # EncS(S, Dev0) \/ DecSRaises(t, Only(f))
                  \/ (~Raises(t) /\ ~DecSRaises(t, Only(f)) /\ DecS(t, Only(f)) # DecS(EncS(S, Dev0), Dev0))}
 
+\* FRAME CONDITIONS required of every replayed call sequence (evaluated by the harness on the real objects):
+\*   ArgumentsUnchanged         the dictionary / values handed to create() and update() are the same afterwards
+\*   QueryIsPure                to_json, to_dict, pickling, save_to_file, get_filename..., == and the getters leave the
+\*                              saved object as the model describes it (original_filename excepted for save_to_file)
+\*   EarlierResultsUnchanged    the object obtained from the first load is still the same after the second save/load
+\*   LoadedIsIndependent        changing the loaded object does not change the saved one
+\*   ReturnedNameIsTheFile      the name save_to_file returns is the name of the one file that appeared; it loads back equal
+\*   RejectedSaveChangesNothing a save that raises (unknown extension, missing directory) leaves parameters, results,
+\*                              counters and the directory as they were (original_filename is NOT demanded: the code as
+\*                              found records the template before it validates - reported in notes/C17.md)
+ReqObject == {"ArgumentsUnchanged", "QueryIsPure", "EarlierResultsUnchanged", "LoadedIsIndependent"}
+ReqFiles  == ReqObject \cup {"ReturnedNameIsTheFile", "RejectedSaveChangesNothing"}
 ParamsCaseRec(kind, id, P, k) ==
   LET t  == EncP(P, Dev)
       ok == ~Raises(t)
       b  == IF ok THEN DecP(t, Dev) ELSE P
   IN  [kind |-> kind, id |-> id, P |-> P, k |-> k, tree |-> t, encRaises |-> ~ok, back |-> b,
-       tree2 |-> IF ok THEN EncP(b, Dev) ELSE t, rel |-> RelP(P), eqdef |-> EqDefinedP(P)]
+       tree2 |-> IF ok THEN EncP(b, Dev) ELSE t, rel |-> RelP(P), eqdef |-> EqDefinedP(P), req |-> ReqObject]
 
 ValueCase ==
   /\ c.kind = "init" /\ Family = "value"
@@ -644,25 +691,25 @@ ResultCase ==
                b  == IF ok THEN DecR(t, Dev) ELSE st
            IN  c' = [kind |-> "result", id |-> <<i>>, rd |-> Rd, st |-> st, tree |-> t, encRaises |-> Raises(t),
                      decRaises |-> ~Raises(t) /\ DecRRaises(t, Dev), back |-> b,
-                     tree2 |-> IF ok THEN EncR(b, Dev) ELSE t, rel |-> RelR(st)]
+                     tree2 |-> IF ok THEN EncR(b, Dev) ELSE t, rel |-> RelR(st), req |-> ReqObject]
 
-\* the quick tier keeps one eleventh of the product (every value of every pool, and every PAIR of values of the
+\* the quick tier keeps one thirteenth of the product (every value of every pool, and every PAIR of values of the
 \* scalar-field pools with every extension, occurs: checked by QuickPairsCovered) plus two slices of special cases
 QuickKeep(p, r, u, cu, tp, e) ==
   IF Thorough THEN TRUE
-  ELSE IF (p + 2 * r + 3 * u + 5 * cu + 7 * tp + e) % 11 = 0 THEN TRUE
+  ELSE IF (p + 2 * r + 3 * u + 5 * cu + 7 * tp + e) % 13 = 0 THEN TRUE
   ELSE IF r >= 4 /\ tp = 1 /\ e = 1 /\ p = 1 THEN TRUE
   ELSE p = 3 /\ u = 1 /\ cu = 2 /\ tp = 1
 \* the selection is not accidental: each current_rep value and each runned_reps value meets each extension
 QuickPairsCovered ==
   /\ \A cu \in 1..Len(CurrentPool) : \A e \in 1..Len(Exts) :
-        \E p \in 1..Len(SParams) : \E r \in 1..Len(ResSets) : \E u \in 1..Len(RunnedPool) : \E tp \in {1, 3} :
+        \E p \in 1..Len(SParams) : \E r \in 1..Len(ResSets) : \E u \in 1..Len(RunnedPool) : \E tp \in {1, 3, 4} :
            QuickKeep(p, r, u, cu, tp, e)
   /\ \A u \in 1..Len(RunnedPool) : \A e \in 1..Len(Exts) :
-        \E p \in 1..Len(SParams) : \E r \in 1..Len(ResSets) : \E cu \in 1..Len(CurrentPool) : \E tp \in {1, 3} :
+        \E p \in 1..Len(SParams) : \E r \in 1..Len(ResSets) : \E cu \in 1..Len(CurrentPool) : \E tp \in {1, 3, 4} :
            QuickKeep(p, r, u, cu, tp, e)
   /\ \A r \in 1..Len(ResSets) : \A e \in 1..Len(Exts) :
-        \E p \in 1..Len(SParams) : \E u \in 1..Len(RunnedPool) : \E cu \in 1..Len(CurrentPool) : \E tp \in {1, 3} :
+        \E p \in 1..Len(SParams) : \E u \in 1..Len(RunnedPool) : \E cu \in 1..Len(CurrentPool) : \E tp \in {1, 3, 4} :
            QuickKeep(p, r, u, cu, tp, e)
 ASSUME QuickPairsCovered
 StatesOf(rset) == [i \in 1..Len(rset) |-> [name |-> rset[i].name, rs |-> [k \in 1..Len(rset[i].rs) |-> RState(rset[i].rs[k])]]]
@@ -683,7 +730,7 @@ ResultsCase ==
                      template |-> TemplateText(Templates[tp] \o <<Lit(Exts[e])>>), fname |-> FileName(tk, SParams[p]),
                      json |-> Exts[e] = ".json",
                      tree |-> t, encRaises |-> Raises(t), decRaises |-> ~Raises(t) /\ DecSRaises(t, Dev), back |-> b,
-                     tree2 |-> IF ok THEN EncS(b, Dev) ELSE t, rel |-> RelS(S), eqdef |-> EqDefinedP(SParams[p])]
+                     tree2 |-> IF ok THEN EncS(b, Dev) ELSE t, rel |-> RelS(S), eqdef |-> EqDefinedP(SParams[p]), req |-> ReqFiles]
 
 \* SimulationResults as a STRING only (never saved: original_filename None / "" / set by hand): the full product of
 \* the scalar-field pools, in every tier
@@ -701,7 +748,7 @@ FieldsCase ==
                b  == IF ok THEN DecS(t, Dev) ELSE S
            IN  c' = [kind |-> "fields", id |-> <<p, r, u, cu, o>>, S |-> S, rd |-> FieldResSets[r],
                      tree |-> t, encRaises |-> Raises(t), decRaises |-> ~Raises(t) /\ DecSRaises(t, Dev), back |-> b,
-                     tree2 |-> IF ok THEN EncS(b, Dev) ELSE t, rel |-> RelS(S), eqdef |-> EqDefinedP(FieldParams[p])]
+                     tree2 |-> IF ok THEN EncS(b, Dev) ELSE t, rel |-> RelS(S), eqdef |-> EqDefinedP(FieldParams[p]), req |-> ReqObject]
 
 \* FINE SCALARS (rel): values that differ only far down - tiny magnitudes, adjacent floats, 1e-13-scale
 \* differences, large values differing in the last digits.  value = (n/d) * 10^b10 + k * 2^e2 * 10^e10; inside a
